@@ -107,6 +107,19 @@ func c02Run(r *core.Run) {
 		q.Chain = world.ChainPEM(fleaf, fint, A.Root, false)
 		add("forged:intermediate-in-name-of-A-root", q, "A", world.MustReject, "intermediate is not signed by a pool root")
 	}
+	// 2b. an "intermediate" that carries the Platform CA's name and is signed by the trusted root's
+	// key but is not a CA certificate (basic constraints CA:FALSE); the leaf is issued by its key.
+	{
+		k := world.NewKey(t)
+		sp := A.PlatSpec
+		sp.IsCA, sp.PathLen = false, -1
+		sp.KeyUsage = x509.KeyUsageDigitalSignature
+		notCA := world.Issue(sp, k, A.Root, A.RootKey)
+		leaf := world.Issue(w.P.PCKSp, w.P.PCKKey, notCA, k)
+		q := qA.Clone()
+		q.Chain = world.ChainPEM(leaf, notCA, A.Root, false)
+		add("notca:intermediate-without-ca-bit", q, "A", world.MustReject, "the quote's intermediate is not a CA certificate, so the leaf does not chain to the pool through an intermediate CA")
+	}
 	// 3. role confusion: the "leaf" is a certificate of another role certified by the trusted root A,
 	// carrying an SGX extension so that extension parsing does not mask the role check, and the QE
 	// report is signed by that certificate's own key.
